@@ -1,5 +1,6 @@
 //! mwv — runtime-monitoring harness for strtok/marwood (see /verif/DESIGN.md).
 pub mod engines;
+pub mod alloc;
 pub mod diff;
 pub mod gen;
 pub mod heapaudit;
